@@ -504,6 +504,11 @@ func runC14(p *core.Prog, r *core.Report) {
 				if ok1 && ok2 && d.Max > i.Min {
 					okOrd, whyOrd = false, "an exit path may decrement more often than it incremented"
 				}
+				// a goroutine that leaves while holding a task has counted it: the task it took from the buffer on
+				// shutdown is accepted and will never start, so it belongs to PendingTask when the lane is at rest
+				if ok1 && i.Min < 1 {
+					okOrd, whyOrd = false, "the return at "+p.Pos(ret.Pos())+" can be reached after a task was received from the buffer but before the +1: the held task is dropped uncounted, PendingTask at rest is short of the accepted-but-not-started tasks"
+				}
 			}
 		}
 		r.Check(okOrd && len(incs) > 0 && len(decs) > 0, "C14-R3", "+1 after the receive, -1 after +1 and after the hand-over", p.FuncPos(t.Queue), "0 <= counter <= number of queue goroutines", whyOrd)
